@@ -236,6 +236,10 @@ class FuncLowerer:
             from cxx2c import PREDEFINED_STRUCTS
             if recname in u.cfg.opaque_records or recname.startswith('std::pmr::memory_resource') or recname in PREDEFINED_STRUCTS:
                 return None
+            if recname in u.cfg.outside_methods:
+                cn = sanitize(u.alias(recname)) + '_dtor'
+                self.outside_proto(cn, ('b', 'void'), [('ptr', ('rec', recname))], recname + '::~', where)
+                return '%s(%s)' % (cn, ptr_expr)
             abort('destructor of unknown record %s' % recname, where)
         dd = rec.get('definitionData', {})
         if dd.get('dtor', {}).get('trivial') or dd.get('dtor', {}).get('irrelevant') and not dd.get('dtor', {}).get('nonTrivial'):
@@ -269,7 +273,8 @@ class FuncLowerer:
             if dt.get('explicitlyDefaulted') == 'default' or dt.get('isImplicit'):
                 defn = dt
             else:
-                abort('destructor %s has no body in this TU' % qn, where)
+                # declared-only (verification parameter type): an extern function with a contract or stub
+                return '%s(%s)' % (self.extern_func(dt), ptr_expr)
         body = [c for c in defn.get('inner', []) if c.get('kind') == 'CompoundStmt']
         if body and not body[0].get('inner') and not self.members_need_dtor(rec):
             return None     # empty user-provided destructor (production configuration)
@@ -300,7 +305,7 @@ class FuncLowerer:
                 if fdecl is None:
                     abort('ctor initializer for unknown field', ini)
                 fty = u.type_of(fdecl)
-                target = 'self->%s' % (fdecl.get('name'))
+                target = 'self->%s' % (u.field_cname(fdecl))
                 e = inner[0]
                 out += self.init_object(target, fty, e, 1)
             elif 'baseInit' in ini:
@@ -430,6 +435,12 @@ class FuncLowerer:
                 return '(void)0 /* trivial default ctor of C struct %s */' % ty[1]
             if ty[1] in PREDEFINED_STRUCTS and len(args) == 1:
                 return '(*(%s) = %s)' % (ptr, self.expr(args[0]))
+            if ty[1] in u.cfg.outside_methods:
+                real = [a for a in args if a.get('kind') != 'CXXDefaultArgExpr']
+                cn = sanitize(u.alias(ty[1])) + '_ctor_%d' % len(real)
+                ats = [u.type_of(a) for a in real]
+                self.outside_proto(cn, ('b', 'void'), [('ptr', ty)] + ats, ty[1] + '::' + ty[1].split('::')[-1], e)
+                return '%s(%s)' % (cn, ', '.join([ptr] + [self.expr(a) for a in real]))
             abort('construct of unknown record %s' % ty[1], e)
         ctor = self.find_ctor(rec, ctor_sig, e)
         if ctor is None:
@@ -440,14 +451,22 @@ class FuncLowerer:
             if a.get('kind') in ('CXXConstructExpr', 'CXXTemporaryObjectExpr') and u.type_of(a) == ty:
                 return self.construct_into(ptr, ty, a)
             if ctor.get('isImplicit') or ctor.get('explicitlyDefaulted') == 'default':
-                self.check_memberwise(rec, e)
-                return '(*(%s) = %s)' % (ptr, self.expr(args[0]))
+                d0, _ = u.func_def(ctor['id'])
+                materialised = d0 is not None and any(c.get('kind') == 'CXXCtorInitializer' for c in d0.get('inner', []))
+                trivial = rec.get('definitionData', {}).get('moveCtor', {}).get('trivial') or rec.get('definitionData', {}).get('copyCtor', {}).get('trivial')
+                if not materialised:
+                    self.check_memberwise(rec, e)
+                    return '(*(%s) = %s)' % (ptr, self.expr(args[0]))
         qn = u.qualname(ctor)
         if u.is_extern_name(qn):
             fn = self.extern_func(ctor)
             return '%s(%s)' % (fn, ', '.join([ptr] + self.call_args(ctor, args)))
         defn, first = u.func_def(ctor['id'])
         if defn is None:
+            if not (ctor.get('isImplicit') or ctor.get('explicitlyDefaulted')):
+                # declared-only constructor of a verification parameter type
+                fn = self.extern_func(ctor)
+                return '%s(%s)' % (fn, ', '.join([ptr] + self.call_args(ctor, args)))
             abort('constructor %s has no definition' % qn, e)
         if not args and (defn.get('isImplicit') or defn.get('explicitlyDefaulted') == 'default') and \
                 not any(c.get('kind') == 'CXXCtorInitializer' for c in defn.get('inner', [])):
@@ -946,7 +965,7 @@ class FuncLowerer:
         k = md.get('kind')
         if k == 'FieldDecl':
             b = self.expr(base)
-            nm = md.get('name')
+            nm = u.field_cname(md)
             prec = md.get('_parent')
             if prec is not None and prec.get('kind') in RECORD_KINDS:
                 u.need_struct(u.qualname(prec))
@@ -1428,6 +1447,15 @@ class FuncLowerer:
             return self.wrap_ref_result('((void)%s, %s(%s))' % (objp, cn, ', '.join(a)), ret)
         return self.wrap_ref_result('%s(%s)' % (cn, ', '.join([objp] + a)), ret)
 
+    def outside_proto(self, cn, ret, argtypes, cxxname, where):
+        u = self.u
+        proto = 'extern ' + u.ctype(ret, '%s(%s)' % (cn, ', '.join(u.ctype(('ptr', t[1]) if t[0] == 'arr' else t) for t in argtypes) or 'void')) + ';'
+        if cn in u.extern_protos and u.extern_protos[cn] != proto:
+            abort('outside function %s used with two different signatures' % cn, where)
+        if cn not in u.extern_protos:
+            u.extern_protos[cn] = proto
+            u.report['externs'].append({'cxx': cxxname, 'c': cn, 'virtual': False, 'type': 'from call site'})
+
     def outside_member_call(self, obj, is_arrow, name, args, e, objt):
         """method of an allow-listed record outside babylon: extern C function whose prototype is
         taken from the call site (argument and result types as clang resolved them)"""
@@ -1472,6 +1500,14 @@ class FuncLowerer:
                 return '(%s %s %s)' % (self.expr(args[0]), opsym, self.expr(args[1]))
             if opsym == '=' and a0t[0] == 'rec' and a0t[1] in PREDEFINED_STRUCTS and len(args) == 2:
                 return '(%s = %s)' % (self.expr(args[0]), self.expr(args[1]))
+        if decl is None and a0t is not None and a0t[0] == 'rec' and name in u.cfg.outside_methods.get(a0t[1], ()):
+            cn = sanitize(u.alias(a0t[1])) + '_' + OPERATOR_NAMES.get(name, 'op_' + sanitize(name[8:]))
+            ret = u.type_of(e)
+            is_lv = e.get('valueCategory') == 'lvalue'
+            rest = args[1:]
+            self.outside_proto(cn, ('ptr', ret) if is_lv else ret, [('ptr', a0t)] + [u.type_of(a) for a in rest], a0t[1] + '::' + name, e)
+            call = '%s(%s)' % (cn, ', '.join([self.addr(args[0])] + [self.expr(a) for a in rest]))
+            return '(*%s)' % call if is_lv else call
         if decl is None:
             h = getattr(self.u.cfg, 'operator_call_hook', None)
             if h is not None:
